@@ -1,6 +1,7 @@
 (** C06: packrat memoisation is invisible except in speed. *)
 From PegV Require Import Base.Tac Spec.Syntax Spec.Peg Model.Machine Model.Gen Model.Analyses Model.Emit Model.SEmit Model.Exec
-  Proofs.Top Proofs.SEmitFile Properties.Example.
+  Proofs.Top Proofs.SEmitFile Spec.WF Model.Optimize Model.Premises Proofs.OptSound Proofs.ParseTop Properties.Example.
+Local Open Scope nat_scope.
 
 (** With memoisation enabled or disabled (DisableMemoize), from any earlier states, the machine
     returns the same verdict, the same position and tokens on success and the same error token on
@@ -34,6 +35,27 @@ Theorem C06_generated_code_memo_invisible :
         (b = true -> pos s1 = pos s2 /\ live s1 = live s2) /\ (b = false -> maxtok s1 = maxtok s2).
 Proof. exact generated_code_options_invisible. Qed.
 Print Assumptions C06_generated_code_memo_invisible.
+
+(** ... and with no side condition at all (Proofs/ParseTop.v): for every grammar with a well-formedness certificate, under
+    either -inline setting and with or without -switch, from any two earlier parser states, the call Parse() makes with
+    the memo table in use and the one it makes with DisableMemoize return the same verdict and, on success, the same
+    offset and token list - every execution of either. *)
+Theorem C06_generated_parser_memo_invisible :
+  forall g tab rank, wf_b g tab rank = true -> good_grammar g ->
+  (forall r b, nth_error g r = Some (RBody b) -> ranges_ok b = true) ->
+  grammar_alt2 g -> closed_names g ->
+  forall ptx buf penv, good_buf buf -> valid_buf buf ->
+  forall inline sw rb st1 st2,
+    nth_error g 0 = Some rb -> rb <> RNil ->
+    forall out1 out2,
+      xcall buf penv (mk_opts true true inline (tree_of sw g)) (gen_fn (tree_of sw g) ptx inline) 0 (reset st1) out1 ->
+      xcall buf penv (mk_opts true false inline (tree_of sw g)) (gen_fn (tree_of sw g) ptx inline) 0 (reset st2) out2 ->
+      exists b s1 s2, out1 = Ret b s1 /\ out2 = Ret b s2 /\ (b = true -> pos s1 = pos s2 /\ live s1 = live s2).
+Proof.
+  intros g tab rank Hwf Hg Hro Ha Hc ptx buf penv Hb Hv inline sw rb st1 st2 Hr Hn out1 out2 X1 X2.
+  exact (generated_parsers_agree g tab rank Hwf Hg Hro Ha Hc ptx buf penv Hb Hv true inline sw false inline sw rb st1 st2 Hr Hn out1 out2 X1 X2).
+Qed.
+Print Assumptions C06_generated_parser_memo_invisible.
 
 (** non-vacuity: on "aby" rule R1 is re-entered at offset 0 after backtracking: with memoisation the
     second and third entries are memo hits; both machines agree *)
